@@ -1543,6 +1543,14 @@ impl Zeroconf {
                     "run: send {} service removal to listeners",
                     expired_services.len()
                 );
+                // A removed instance may be found again later: let it have its
+                // resolve queries again then.
+                for instance in expired_services.values().flatten() {
+                    self.pending_resolves.remove(instance);
+                    self.retransmissions.retain(
+                        |rerun| !matches!(&rerun.command, Command::Resolve(i, _) if i == instance),
+                    );
+                }
                 self.notify_service_removal(expired_services);
             }
 
